@@ -586,6 +586,28 @@ let act_run (line : string) : string =
      | LBindAddress -> "fallback")
   | _ -> failwith "act-run"
 
+(* ---------- context-aware I/O scenarios (see harness/cmd/h_ctx/main.go) ---------- *)
+let ctx_run (line : string) : string =
+  match fields line with
+  | [hon; kind; instant] ->
+    let hon = (hon = "1") in
+    let dl = (kind = "deadline") in
+    let s0 =
+      (match instant with
+       | "before" -> c_init DNone dl dl (not dl) hon O
+       | "after" -> c_init DNone dl false false hon (nat_of_int 6)
+       | _ -> c_init DNone dl false false hon O) in
+    let run s ls = List.fold_left (fun s l -> match cstep s l with Some s' -> s' | None -> s) s ls in
+    let s1 =
+      (match instant with
+       | "blocked" | "partial" -> run s0 [LCaller; LCaller; (if dl then LExpire0 else LCancel)]
+       | _ -> s0) in
+    let outs = outcomes (nat_of_int 14) s1 in
+    let show = function
+      | None -> "blocked" | Some (CData _) -> "ok" | Some CCtxErr -> "ctx" | Some CTimeout -> "timeout" | Some CEof0 -> "eof" in
+    String.concat "," (List.sort_uniq compare (List.map show outs))
+  | _ -> failwith "ctx-run"
+
 let split_ws (l : string) : string list =
   List.filter (fun x -> x <> "") (String.split_on_char ' ' l)
 
@@ -652,6 +674,7 @@ let handle_line (cmd : string) (line : string) : string =
   | "addr-run" -> addr_run line
   | "life-run" -> life_run line
   | "act-run" -> act_run line
+  | "ctx-run" -> ctx_run line
   | _ -> handle cmd line
 
 let () =
